@@ -60,8 +60,17 @@ func oneLine(s string) string {
 }
 
 type gateWalker struct {
-	fn   string
-	rows []gateRow
+	fn      string
+	rows    []gateRow
+	callees map[string]bool // nil: privacyCallees
+	returns string          // non-empty: record return statements as rows of this site
+}
+
+func (w *gateWalker) wanted(name string) bool {
+	if w.callees != nil {
+		return w.callees[name]
+	}
+	return privacyCallees[name]
 }
 
 // exprs: record the targets inside an expression/statement that is not itself a block
@@ -76,7 +85,7 @@ func (w *gateWalker) exprs(n ast.Node, conds []string) {
 			return false
 		case *ast.CallExpr:
 			name := src(n.Fun)
-			if privacyCallees[name] || (name == "append" && w.fn == "tor.infoHashes") {
+			if w.wanted(name) || (name == "append" && w.fn == "tor.infoHashes") {
 				var args []string
 				for _, a := range n.Args {
 					if _, ok := a.(*ast.FuncLit); ok {
@@ -170,6 +179,15 @@ func (w *gateWalker) stmt(st ast.Stmt, conds []string) {
 		w.exprs(s.Call, conds)
 	case *ast.DeferStmt:
 		w.exprs(s.Call, conds)
+	case *ast.ReturnStmt:
+		if w.returns != "" {
+			var rs []string
+			for _, x := range s.Results {
+				rs = append(rs, oneLine(src(x)))
+			}
+			w.rows = append(w.rows, gateRow{w.fn, w.returns, strings.Join(rs, ", "), append([]string(nil), conds...)})
+		}
+		w.exprs(st, conds)
 	default:
 		w.exprs(st, conds)
 	}
@@ -255,8 +273,88 @@ func genPrivacy() {
 	b.WriteString("def hasWebseedsDef : String := " + leanStr(hasWebseedsDef) + "\n")
 	b.WriteString("def hasProxyDef : String := " + leanStr(hasProxyDef) + "\n")
 	b.WriteString("def peerHasProxyDef : String := " + leanStr(peerHasProxyDef) + "\n")
+	b.WriteString("/-- how every outbound site decides between a direct connection and the proxy: the dial / client\n    construction sites of httpclient, tor.DialClient, the UDP and HTTP trackers, the web seeds and\n    GetTorrent, and the return statements of the HTTP transport's Proxy function, each with its\n    dominating conditions -/\n")
+	b.WriteString("def proxyRoutes : List Gate := [\n")
+	rrows := proxyRouteRows()
+	for i, r := range rrows {
+		var cs []string
+		for _, c := range r.conds {
+			cs = append(cs, leanStr(c))
+		}
+		sep := ","
+		if i == len(rrows)-1 {
+			sep = " ]"
+		}
+		b.WriteString(fmt.Sprintf("  ⟨%s, %s, %s, [%s]⟩%s\n", leanStr(r.fn), leanStr(r.site), leanStr(r.args), strings.Join(cs, ", "), sep))
+	}
+	if len(rrows) == 0 {
+		b.WriteString(" ]\n")
+	}
 	b.WriteString("end Storrent.Gen\n")
 	writeIfChanged("PrivacyGates.lean", b.String())
+}
+
+var routeCallees = map[string]bool{
+	"dialer.DialContext": true, "dialer.Dial": true, "d.DialContext": true, "d.Dial": true,
+	"proxy.FromURL": true, "url.Parse": true, "nurl.Parse": true, "http.ProxyURL": true,
+	"http.ProxyFromEnvironment": true, "httpclient.Get": true,
+	"net.Dial": true, "net.DialTimeout": true, "net.DialUDP": true, "net.DialTCP": true, "net.DialIP": true,
+}
+
+type routeFn struct{ file, pkg, name string }
+
+var routeFns = []routeFn{
+	{"httpclient/httpclient.go", "httpclient.", "Get"},
+	{"tor/initial.go", "tor.", "DialClient"},
+	{"tor/torfile.go", "tor.", "GetTorrent"},
+	{"tracker/udp.go", "tracker.", "announceUDP"},
+	{"tracker/http.go", "tracker.", "announceHTTP"},
+	{"webseed/getright.go", "webseed.", "GetRight.Get"},
+	{"webseed/hoffman.go", "webseed.", "Hoffman.Get"},
+}
+
+func proxyRouteRows() []gateRow {
+	var rows []gateRow
+	for _, rf := range routeFns {
+		f := parse(rf.file)
+		var fd *ast.FuncDecl
+		if i := strings.Index(rf.name, "."); i >= 0 {
+			fd = findMethod(f, rf.name[:i], rf.name[i+1:])
+		} else {
+			fd = findFunc(f, rf.name)
+		}
+		if fd == nil || fd.Body == nil {
+			rows = append(rows, gateRow{rf.pkg + rf.name, "missing", "", nil})
+			continue
+		}
+		w := &gateWalker{fn: rf.pkg + rf.name, callees: routeCallees}
+		w.block(fd.Body, nil)
+		// tracker.url.Parse: in announceUDP `url` is the tracker's URL value, not the package
+		rows = append(rows, w.rows...)
+		if rf.name == "Get" && rf.pkg == "httpclient." {
+			// the Proxy field of the http.Transport literal
+			found := false
+			ast.Inspect(fd.Body, func(n ast.Node) bool {
+				kv, ok := n.(*ast.KeyValueExpr)
+				if !ok || src(kv.Key) != "Proxy" {
+					return true
+				}
+				found = true
+				if fl, ok := kv.Value.(*ast.FuncLit); ok {
+					pw := &gateWalker{fn: "httpclient.Get", callees: map[string]bool{}, returns: "Transport.Proxy return"}
+					pw.block(fl.Body, nil)
+					rows = append(rows, pw.rows...)
+				} else {
+					rows = append(rows, gateRow{"httpclient.Get", "Transport.Proxy", "not a function literal: " + oneLine(src(kv.Value)), nil})
+				}
+				return false
+			})
+			if !found {
+				rows = append(rows, gateRow{"httpclient.Get", "Transport.Proxy", "absent", nil})
+			}
+		}
+	}
+	return rows
 }
 
 func init() { extraGens = append(extraGens, genPrivacy) }
